@@ -175,6 +175,28 @@ func (vc *VC) keepUnsharedCells(h *Heap, pre Heap, at ssa.Instruction) {
 	}
 }
 
+// perIterationLocal: the address is (a field / element of) a non-escaping local variable that is
+// declared inside the loop body. go/ssa proves such an Alloc non-escaping (Heap == false), so each
+// iteration works on its own new object that nothing outlives: stores to it are not loop effects.
+func perIterationLocal(addr ssa.Value, li *loopInfo) bool {
+	for d := 0; d < 6; d++ {
+		switch x := addr.(type) {
+		case *ssa.Alloc:
+			return !x.Heap && li.body[x.Block()]
+		case *ssa.FieldAddr:
+			addr = x.X
+		case *ssa.IndexAddr:
+			if _, isP := x.X.Type().Underlying().(*types.Pointer); !isP {
+				return false // element of a slice: the backing array is another object
+			}
+			addr = x.X
+		default:
+			return false
+		}
+	}
+	return false
+}
+
 // loopMayUpdateLocalGhosts: does the loop body contain a call that an `at-call <callee> ghost ...`
 // clause of the contract under verification is attached to? With `at-call-inlined` the clauses also
 // apply inside inlined callees and closures, so any call that is not by contract counts.
